@@ -13,17 +13,17 @@ LEVEL = 'exploration'
 RULE = ('LISTS: (L1) every labelled list tree over {itemize,enumerate,description} with <= 3 items per list, depth <= D and '
         '<= T items in total, item content in {one paragraph, two paragraphs, text+quote, text+tabular, bare nested list, '
         'text+nested list+text} x optional [term]; (L2) every unlabelled shape of depth <= D with <= m items per list '
-        '(<= S items in total), labelled by 3 kind rotations x 6 leaf-content rotations x term pattern. '
+        '(<= S items in total), labelled by 3 kind rotations x 6 leaf-content rotations (menu plus quote-holding-a-list) x term pattern. '
         'TABLES: (T1) every preamble of n columns over column types x every subset of the n+1 bar positions x every '
         'spelling (plain, spaced, @{} at every gap on either side of a bar, every *{k}{unit} folding) x 3 bodies; '
         '(T2) every span layout of an n x r grid with <= 2 \\multicolumn cells (all spans, all positions, incl. span 1) x '
         'every subset of the r+1 row boundaries carrying \\hline x (no \\cline | one \\cline{i-j}, every boundary, every '
         'range that is a union of whole cells of both adjacent rows) x preamble/multicolumn-spec pairs; (T2V) every span '
         'layout x every bar subset x every choice of {c,|c,c|,|c|} per multicolumn; (T3) every n x r grid of cell contents '
-        'from {word, two words, empty, unbraced \\bfseries, {\\bf ..}, $..$, \\textbf, nested tabular, itemize, \\def+use, '
+        'from {word, two words, two paragraphs, empty, unbraced \\bfseries, {\\bf ..}, $..$, \\textbf, nested tabular, itemize, \\def+use, '
         'use of outer \\def} without all-empty rows, plus multicolumn contents; (T4) row terminator / whitespace / '
         'environment (tabular, tabular[t], tabular*, array in \\[ \\] and $ $) / wrapper (bare, article, list item, center) '
-        'spellings x 8 bodies. Every text leaf is a unique marker word. Non-trivial: >= 2 items / >= 2 cells; distinct = '
+        'spellings x 9 bodies. Every text leaf is a unique marker word. Non-trivial: >= 2 items / >= 2 cells; distinct = '
         'distinct source text; outcomes = distinct observed shapes')
 ASSUMPTIONS = [
     'oracle: fold over the generated AST using the LaTeX rules quoted in vp/refs/c10_shape.py; no TeX binary to cross-check',
@@ -322,7 +322,7 @@ def gen_T1(n, types):
                     ([plain_rows(n - 1, 1)[0] + [[1, 'r|', 'M']]], [[0, None]] * 2),
                 ]
                 for rows, rules in bodies:
-                    yield {'fam': 'table', 'ast': t_ast(cols, bars, rows, rules)}
+                    yield {'fam': 'table', 'ast': t_ast(cols, bars, rows, rules, spell=spell)}
 
 
 T2_PAIRS = [('none', 'c'), ('all', '|c|'), ('all', 'c'), ('none', 'c|'), ('alt', '|c')]
@@ -363,7 +363,7 @@ def gen_T2V(n, r, maxmc):
                 yield {'fam': 'table', 'ast': t_ast(cols, bars_list(mask, n), rows, rules)}
 
 
-KINDS_FULL = ['M', 'M2', 'E', 'BF', 'G', 'MA', 'TB', 'NT', 'LI', 'DF', 'US']
+KINDS_FULL = ['M', 'M2', 'P2', 'E', 'BF', 'G', 'MA', 'TB', 'NT', 'LI', 'DF', 'US']
 KINDS_SMALL = ['M', 'E', 'BF', 'NT', 'DF', 'US']
 KINDS_TINY = ['M', 'E', 'BF', 'US']
 
@@ -408,10 +408,12 @@ def t4_bodies():
     out.append(('ll', [0, 0, 0], [[[2, 'c', M]], [[1, None, 'DF'], [1, None, 'US']], [[1, 'r', M], [1, None, 'E']]],
                 [[1, None], [1, None], [0, [1, 2]], [0, None]]))
     out.append(('rl', [1, 0, 1], [[[1, None, 'NT'], [1, None, M]]], [[0, None], [1, None]]))
+    out.append(('lc', [2, 1, 2], plain_rows(2, 2), [[2, None], [0, None], [2, [1, 1]]]))       # || and \\hline\\hline
     return out
 
 
 def gen_T4():
+    seen = set()
     for cols, bars, rows, rules in t4_bodies():
         mathok = all(c[2] in ('M', 'E') for row in rows for c in row)
         for env, wrap in [('tabular', 'bare'), ('tabular', 'article'), ('tabular', 'item'), ('tabular', 'center'),
@@ -421,8 +423,12 @@ def gen_T4():
             for term in sorted(R.TERMINATORS):
                 for tight in (0, 1):
                     for final in (0, 1):
-                        yield {'fam': 'table', 'wrap': wrap,
-                               'ast': t_ast(cols, bars, rows, rules, env=env, term=term, tight=tight, final=final)}
+                        case = {'fam': 'table', 'wrap': wrap,
+                                'ast': t_ast(cols, bars, rows, rules, env=env, term=term, tight=tight, final=final)}
+                        src = R.build(case)[0]      # descriptors that print the same text are one case
+                        if src not in seen:
+                            seen.add(src)
+                            yield case
 
 
 # ---------------------------------------------------------------------------
@@ -483,7 +489,7 @@ def shapes(depth, maxitems, total):
         yield s
 
 
-LEAF_ROT = ['P1', 'P2', 'EQ', 'P1', 'ET', 'P2']
+LEAF_ROT = ['P1', 'P2', 'EQ', 'EL', 'ET', 'P2']
 
 
 def label_shape(shape, krot, lrot, tpat):
@@ -518,13 +524,13 @@ def _sh_width(sh):
     return max([len(sh)] + [_sh_width(x) for x in sh if x is not None])
 
 
-def gen_L2(depth, maxitems, total, min_total, min_width=1, min_depth=1):
+def gen_L2(depth, maxitems, total, min_total, min_width=1, min_depth=1, diag=0):
     """shapes not already covered with all labellings by L1 (min_total) or by another L2 family (min_width/min_depth)"""
     for sh in shapes(depth, maxitems, total):
         if _sh_total(sh) < min_total or _sh_width(sh) < min_width or _sh_depth(sh) < min_depth:
             continue
         for krot in range(3):
-            for lrot in range(6):
+            for lrot in ((2 * krot,) if diag else range(6)):
                 yield {'fam': 'list', 'ast': label_shape(sh, krot, lrot, (krot + lrot) % 3)}
 
 
@@ -567,8 +573,9 @@ def plan(tier):
         p.append(('L2', (3, 2, 99, 4), 4, {}))
         p.append(('L2', (3, 3, 6, 4, 3), 8, {}))
     else:
-        for n in (1, 2, 3, 4):
-            p.append(('T1', (n, 'lcrp'), {1: 1, 2: 2, 3: 16, 4: 128}[n], {}))
+        for n in (1, 2, 3):
+            p.append(('T1', (n, 'lcrp'), {1: 1, 2: 2, 3: 16}[n], {}))
+        p.append(('T1', (4, 'lcp'), 64, {}))
         p.append(('T1', (5, 'lp'), 64, {}))
         for n in (1, 2, 3, 4):
             for r in (1, 2, 3):
@@ -600,7 +607,7 @@ def plan(tier):
             p.append(('T2', (3, 2, 2, 0), 16, {'wrap': w}))
         p.append(('L1', (4, 3, 4), 128, {}))
         p.append(('L1', (3, 3, 3), 8, {'article': 1}))
-        p.append(('L2', (4, 2, 99, 5), 128, {}))
+        p.append(('L2', (4, 2, 99, 5, 1, 1, 1), 128, {}))
         p.append(('L2', (3, 3, 8, 5, 3), 64, {}))
         p.append(('L2', (4, 3, 7, 5, 3, 4), 64, {}))
     return p
